@@ -193,10 +193,54 @@ def _engine_table():
                 f"detached := false }}]\n"), {name: f"skipped: {e}"}
 
 
+def _scope_of(expr: ast.AST, env: list, line: int) -> str:
+    """whose parameters an iterable denotes; names are resolved by the closest preceding assignment"""
+    for _ in range(4):
+        if isinstance(expr, ast.Name):
+            prev = [(ln, v) for (ln, name, v) in env if name == expr.id and ln < line]
+            if not prev:
+                break
+            line, expr = max(prev, key=lambda x: x[0])
+    t = _norm(expr)
+    if "self.models" in t and "self.model" in t.replace("self.models", ""):
+        return ".allModels"
+    if t in ("self.model.parameters()", "list(self.model.parameters())"):
+        return ".mainOnly"
+    raise Untranslatable(f"cannot tell whose parameters `{ast.unparse(expr)}` are")
+
+
+def _scopes():
+    out, status = [], {}
+    try:
+        fn = find_function(parse_file(REPO / E), "Engine.training_loop")
+        loop = _main_loop(fn)
+        env = []
+        for n in ast.walk(loop):
+            if isinstance(n, ast.Assign) and len(n.targets) == 1 and isinstance(n.targets[0], ast.Name):
+                env.append((n.lineno, n.targets[0].id, n.value))
+        div = clip = None
+        for n in ast.walk(loop):
+            if isinstance(n, ast.For) and any(isinstance(c, ast.Call) and classify_call(c) == ".divGrad" for c in ast.walk(n)):
+                div = _scope_of(n.iter, env, n.lineno)
+            if isinstance(n, ast.Call) and classify_call(n) == ".clip" and n.args:
+                clip = _scope_of(n.args[0], env, n.lineno)
+        if div is None or clip is None:
+            raise Untranslatable("div_ loop / clip_grad_norm_ call not found")
+        for name, v in (("divScope", div), ("clipScope", clip)):
+            out.append(f"/-- translated from `{E}`:`Engine.training_loop` -/\ndef {name} : Train.ParamScope := {v}\n")
+            status[name] = "translated"
+    except Untranslatable as e:
+        for name in ("divScope", "clipScope"):
+            out.append(f"/-- SKIPPED ({e}) -/\ndef {name} : Train.ParamScope := .allModels\n")
+            status[name] = f"skipped: {e}"
+    return "\n".join(out), status
+
+
 def _c16_extra():
     t1, s1 = _loop_table()
     t2, s2 = _engine_table()
-    return t1 + "\n" + t2, {**s1, **s2}
+    t3, s3 = _scopes()
+    return t1 + "\n" + t2 + "\n" + t3, {**s1, **s2, **s3}
 
 
 EXTRA["C16"] = _c16_extra
